@@ -3,7 +3,7 @@ TITLE = 'FIMO reports exactly the windows above threshold, both strands, fields 
 CONTRACT_MODULES = ['contracts.fimo_c']
 FUNCTIONS = ['tangermeme.tools.fimo._fast_hits', 'tangermeme.tools.fimo.fimo#threshold']
 BOUNDED = 'bounded.C12'
-BOUNDED_BUDGET = {'quick': 60, 'thorough': 600}
+BOUNDED_BUDGET = {'quick': 120, 'thorough': 600}
 LEVEL = 'other'
 EXPLANATION = ("deductive: threshold of one motif (fragment: body of the threshold loop of fimo()): the score threshold is the first bin of the table whose log p-value is below log2(threshold), +inf when none, only entry i written; (scanner kernel _fast_hits): membership of hits[k] = exactly the windows 0..len-w inclusive whose score exceeds "
                "the threshold, hit fields, score as recursive sum (unknown characters contribute 0), index safety of every array access "
